@@ -41,8 +41,9 @@ COMMANDS = [
     ("assign", "x = 2"),
     ("read", "x"),
     ("deffn", "def f(a) a + x; f(1)"),
-    ("fail", "1 / 0"),
-    ("midway", "def a1 = 1; x = 5; def b1 = nosuch; def c1 = 3"),
+    # (function definitions after the failure point: the statements of a call run in order, none of them ahead of time)
+    ("fail", "1 / 0; def latefn2() 1; def f(a) 'replaced by the failed remainder'"),
+    ("midway", "def a1 = 1; x = 5; def b1 = nosuch; def c1 = 3; def latefn(a) a; def f(a) 'replaced by the failed remainder'"),
     ("syntax", "def = "),
     ("req-good", "require good; good->inc()"),
     ("req-missing", "require missing_mod"),
@@ -74,7 +75,7 @@ RUN_FILES = {"defs_file.ckl": "def from_file = 41;\ndef from_file_fn() from_file
 NEEDS_OPEN_SESSION = {"run-from-fn", "run-failing-from-fn"}
 N_CORE = 18
 LATE_SRC = "append(LOADLOG, 'late_mod');\ndef v = 77;\n"
-PROBES = ["x", "a1", "b1", "c1", "acc", "f(1)", "good->get()", "good->dbl(4)", "z", "never", "a", "b", "late_mod->v", "from_file", "from_file_fn()",
+PROBES = ["x", "a1", "b1", "c1", "acc", "latefn(1)", "latefn2()", "f(1)", "good->get()", "good->dbl(4)", "z", "never", "a", "b", "late_mod->v", "from_file", "from_file_fn()",
           "early", "late", "rec(0)", "bigs0", "bigs699", "bigr0", "bigr699", "bigr_after", "Shape->sides", "new(Shape)->describe()", "seen_in_loop",
           "string(LOADLOG)"]
 ERR = ("error", "'ERROR'")
@@ -194,7 +195,7 @@ class Model:
         b = self.b
         if p in ("x", "a1", "acc"):
             return ("value", str(b[p])) if p in b else ERR
-        if p in ("b1", "c1", "z", "never", "a", "b"):
+        if p in ("b1", "c1", "z", "never", "a", "b", "latefn(1)", "latefn2()"):
             return ERR
         if p == "f(1)":
             if "f" not in b:
